@@ -51,6 +51,11 @@ func init() {
 			}
 			return r
 		},
+		"math/bits.Len64": func(in *Interp, fn *ssa.Function, a []Value) Value { return bitsLen(a[0].(*Term)) },
+		"math/bits.Len32": func(in *Interp, fn *ssa.Function, a []Value) Value { return bitsLen(a[0].(*Term)) },
+		"math/bits.Len16": func(in *Interp, fn *ssa.Function, a []Value) Value { return bitsLen(a[0].(*Term)) },
+		"math/bits.Len8":  func(in *Interp, fn *ssa.Function, a []Value) Value { return bitsLen(a[0].(*Term)) },
+		"math/bits.Len":   func(in *Interp, fn *ssa.Function, a []Value) Value { return bitsLen(a[0].(*Term)) },
 		"bytes.Equal": func(in *Interp, fn *ssa.Function, a []Value) Value {
 			x, y := a[0].(Slice), a[1].(Slice)
 			if len(x.A) != len(y.A) {
@@ -148,9 +153,25 @@ func fmtErrorf(in *Interp, fn *ssa.Function, a []Value) Value {
 	return Iface{T: types.NewPointer(t), V: &v}
 }
 
+// bitsLen: minimum number of bits to represent x (0 for x == 0), as a 64-bit int term.
+func bitsLen(x *Term) *Term {
+	if x.IsConst() {
+		return BVConstI(64, int64(x.Val.BitLen()))
+	}
+	r := BVConstI(64, 0)
+	for i := 0; i < x.W; i++ {
+		r = Ite(BVCmp("=", Extract(i, i, x), BVConstU(1, 1)), BVConstI(64, int64(i+1)), r)
+	}
+	return r
+}
+
 var errorIface = types.Universe.Lookup("error").Type().Underlying().(*types.Interface)
 
 func init() {
+	for _, n := range []string{"RegisterType", "RegisterFile", "RegisterEnum", "RegisterMapType", "RegisterExtension", "GoGoProtoPackageIsVersion3", "GoGoProtoPackageIsVersion2"} {
+		intrinsics["github.com/gogo/protobuf/proto."+n] = func(in *Interp, fn *ssa.Function, a []Value) Value { return nil }
+		intrinsics["github.com/golang/protobuf/proto."+n] = func(in *Interp, fn *ssa.Function, a []Value) Value { return nil }
+	}
 	for _, n := range []string{"(*github.com/ElrondNetwork/elrond-go/hashing/fnv.fnv).Compute", "(*github.com/ElrondNetwork/elrond-go/hashing/keccak.keccak).Compute", "(*github.com/ElrondNetwork/elrond-go/hashing/sha256.sha256).Compute"} {
 		intrinsics[n] = func(in *Interp, fn *ssa.Function, a []Value) Value { return in.ufHash(a[1].(Str)) }
 	}
@@ -208,6 +229,8 @@ func (in *Interp) verifCall(fn *ssa.Function, args []Value) Value {
 			in.ctx.Assume(args[1].(*Term))
 		}
 		return nil
+	case "verifIteByte", "verifIteU64":
+		return Ite(args[0].(*Term), args[1].(*Term), args[2].(*Term))
 	case "verifNote":
 		in.ctx.ex.Notes[argName()]++
 		return nil
